@@ -186,6 +186,16 @@ let model_dump ?kp ?vp ?(kmin = 0) ?(vmin = 0) (es : (string * string) list) : s
             do_key_min = n_of_int kmin; do_val_min = n_of_int vmin } in
   List.filter_map (fun (k, v) -> let e = (nl_of_string k, nl_of_string v) in
                     if dump_keep o e then Some (string_of_nl (dump_line_hex e)) else None) es
+(* text mode (no -x) of the model; entries whose text contains a newline would span several output lines, so the
+   comparison is made on the whole output *)
+let model_dump_text (es : (string * string) list) : string =
+  String.concat "" (List.map (fun (k, v) -> string_of_nl (dump_line_text (nl_of_string k, nl_of_string v)) ^ "\n") es)
+let run_dump_raw path (args : string) : string =
+  let cmd = Printf.sprintf "%s %s %s 2>/dev/null" (Filename.quote (dump_bin ())) args (Filename.quote path) in
+  let ic = Unix.open_process_in cmd in
+  let b = Buffer.create 4096 in
+  (try while true do Buffer.add_channel b ic 1 done with End_of_file -> ());
+  ignore (Unix.close_process_in ic); Buffer.contents b
 
 (* everything we check on one table file *)
 let check_table acc st ~props ~klass ~(table_json : unit -> json) ~(path : string) ~(file : string)
@@ -233,6 +243,13 @@ let check_table acc st ~props ~klass ~(table_json : unit -> json) ~(path : strin
            fail acc ~kind:"model_mismatch" ~what:"[C01] mtbl_dump -x differs from the model of the tool (T01_dump)" (table_json ());
          if got <> List.map dump_line es then
            fail acc ~kind:"spec_violation" ~what:"[C01] mtbl_dump -x does not print exactly the table's entries" (table_json ());
+         (* text mode: quoted strings, non-printable bytes (and only those) as \xNN, the double quote escaped *)
+         bump acc "mtbl_dump_text_runs";
+         if run_dump_raw path "" <> model_dump_text es then begin
+           fail acc ~kind:"model_mismatch" ~what:"[C01] mtbl_dump (text mode) differs from the model of the tool (T01_dump)" (table_json ());
+           fail acc ~kind:"spec_violation" ~what:"[C01] mtbl_dump (text mode) does not print exactly the table's entries, each as two quoted strings with every byte outside 0x20..0x7e as \\xNN"
+             (table_json ())
+         end;
          (* filters *)
          if Array.length esa > 0 then begin
            let (k0, v0) = esa.(rint st (Array.length esa)) in
@@ -487,6 +504,7 @@ let run ~tier ~seed ~only acc =
        (List.sort_uniq compare (List.concat_map (fun (a, b) -> [ a; b ]) sep_pairs)));
     ("empty_table", base, []);
     ("binary_keys_dump", base, [ ("a", "v\000w"); ("a\000b", "v\000x"); ("a\000bd", "v"); ("a\000c", "\000"); ("ab", "v\000wz"); ("b\000\000", "\000\000y"); ("b\000\001", "") ]);
+    ("binary_keys_dump", base, List.init 256 (fun i -> (Printf.sprintf "k%c" (Char.chr i), Printf.sprintf "v%c%c" (Char.chr (255 - i)) (Char.chr i))));
     ("restart_interval_1", { base with interval = Some 1 }, k12);
     ("restart_interval_3_zstd", { base with interval = Some 3; comp = 5 }, k12);
   ] in
